@@ -152,6 +152,7 @@ def generate(rng, prop, tier):
         history = rng.choice([1000, 1000, 512, 2000]) - len(pre) - rng.randint(1, 3)
     return {'engine': 'racesim', 'prop': prop, 'backend': B.config(label, B.odd_name(rng, label, 'r0')), 'ops': pre,
             'history': history,
+            'skew': [rng.weighted([(6, 0), (2, 90), (1, 3600), (1, -3600)]) for _ in clients],
             'clients': clients, 'sseed': rng.below(1 << 30), 'kseed': rng.below(1 << 30),
             'sticky': rng.choice([0.2, 0.5, 0.8]), 'order': rng.choice(['sorted', 'permute'])}
 
@@ -232,6 +233,9 @@ def do_op(state, cfg, root, op):
 def client_main(idx, case, root, ev_w, go_r):
     cfg = case['backend']
     clock = SimClock()
+    skew = (case.get('skew') or [])
+    if idx < len(skew):
+        clock.now += skew[idx]
 
     def sched(kind, rel, mut):
         _send(ev_w, {'t': 'ev', 'k': kind, 'p': rel})
@@ -744,6 +748,10 @@ def simplify(case):
     if case.get('history'):
         c = _copy.deepcopy(case)
         c['history'] = 0
+        yield c
+    if any(case.get('skew') or []):
+        c = _copy.deepcopy(case)
+        c['skew'] = [0 for _ in case['clients']]
         yield c
     for s in (1, 2, 3, 5, 8):
         if case['sseed'] != s:
